@@ -20,7 +20,7 @@ def main():
             "replay_cmd_template": "./check %s --replay {path}" % pid,
             "engine": "nlmon",
             "level_claimed": {"category": p["level"], "text": p["claim"], "design_ref": p.get("design_ref", "DESIGN.md section 4 " + pid)},
-            "level_note": p["note"],
+            "level_note": p["note"] + " Two pipelines: the statements go to the evaluator as parsed (REPL / eval path) and, for every third shard of the quick tier and every second shard of the thorough tier, additionally through the interpreter's static pass `warn` first, as the command-line interpreter runs a script file (DESIGN.md section 13).",
             "technique": p["technique"],
         })
     na = [{"property_id": pid, "reason": registry.NOT_APPLICABLE.get(pid, "monitor not built yet in this session (planned in DESIGN.md section 4)")}
@@ -36,7 +36,7 @@ def main():
             "add_only": True,
         },
         "engines": [{"name": "nlmon", "path": "/verif/harness", "serves_properties": [c["property_id"] for c in checks],
-                     "kind_free_text": "Rust harness linking the real interpreter (fuel/depth/fault hooks, counting allocator, panic capture, canonical value dump) + Python stdlib reference models and offline checkers (vf/)"}],
+                     "kind_free_text": "Rust harness linking the real interpreter (fuel/depth/fault hooks, counting allocator, panic capture, canonical value dump, optional script pipeline = static pass `warn` before evaluation) + Python stdlib reference models and offline checkers (vf/)"}],
         "checks": checks,
         "not_applicable": na,
         "notes": "Runtime monitoring only: every check runs the real interpreter built from /repo's working tree and decides with a monitor/oracle over observed executions. See DESIGN.md.",
